@@ -9,6 +9,15 @@ CHECKS = {
  'C17': dict(level='proof', technique='CBMC: File::createObject against the format table over all 2^32 codes; constructor postconditions; constructor determinism as 2-safety (two nondeterministic memory backgrounds)',
    text="File::createObject is checked against spec/type_table.json (built from two independent places in the repository, re-derived on every run) for the FULL 32-bit code domain in one loop-free query; every class constructor is checked to set a code the factory maps back to that class, the signature, the header version and - by self-composition over two arbitrary memory backgrounds - a determined value for every data member. Loop-free harnesses over full-domain symbolic inputs are complete proofs.",
    note=TB + "; operator new assumed to succeed; 'written under that code / read back as that class' is carried by the round-trip obligations of C01", ref='6/C17'),
+ 'C01': dict(level='proof', technique='CBMC on the extracted codecs: read(write(x)) == x member-wise for every class, all scalar values symbolic, container sizes and layout selectors enumerated; pipeline stages carried by the contracts of C04/C05/C08/C15/C16',
+   text="For every creatable class the extracted read() is proved to invert the extracted write() on a byte-accurate stream: every scalar member symbolic at full width (stale size/length fields included), every container content symbolic, container sizes enumerated over 0..8 (0..24 thorough: every residue mod 4, empty, multi-word) and every documented layout variant; asserted: no exception, stream good, consumed == emitted, every serialised member equal (variant-conditional members under their documented condition). Complete in values, bounded in payload length; the length dimension beyond the bound is unbounded at count level in C03/C10.",
+   note=TB + "; bounded stand-in in payload length (stated in the evidence); threads/zlib/file system are outside these obligations", ref='6/C01'),
+ 'C02': dict(level='proof', technique='CBMC on the extracted codecs over the concrete reference images with a fully symbolic 8-byte overwrite window at every offset; decode guided by the reference decode (same shape)',
+   text="Every reference object image found by an independent stdlib-only walker is decoded and re-encoded by the extracted codec inside CBMC; each 8-byte window (a superset of every single-byte and aligned 2/4/8-byte overwrite, all values at once) is made symbolic; within the property's domain (decoded completely, same shape) the re-encoding must have the decoded length and reproduce every byte. Loop bounds are the concrete image lengths, so each query is a complete decision of its window. Quick: up to 2 images per class, large images only over their first 64 bytes; thorough: all 512 images + lobj samples, every window.",
+   note=TB + "; one fixture image is inconsistent in itself and listed in spec/undecodable_images.json; bytes the decoder skips are compared unmodified only", ref='6/C02'),
+ 'C14': dict(level='proof', technique='CBMC 2-safety (self-composition): two objects in independent nondeterministic memory backgrounds, same member values => same bytes; padding zero',
+   text="For every class, two objects constructed in two arbitrary memory backgrounds and given the same member values (and, separately, only constructed) are written by the extracted write() to two streams: equal length, equal bytes at an arbitrary index, bytes beyond objectSize zero. AbstractFile::skipp is the real extracted body. Container-cut determinism is carried by C15/C04.",
+   note=TB + "; zlib determinism assumed; schedule independence is C07 (not applicable)", ref='6/C14'),
 }
 NA = {
 }
